@@ -28,7 +28,7 @@ CHECKS = {
  "C01": dict(
    technique="deterministic simulation with fault injection: builds on a simulated disk (real directory tree, content and timing decided by a seeded fault plan executed inside the mediated os calls) in crash-attributed worker processes; oracle: catalog or structured error, no panic, no process death, bounded file accesses, no hang; plus a single-fault-at-every-point sweep",
    text="Seeded search over (project, fault plan) pairs: generated, light include graphs (hostile parameters, cycles), 29 special configurations, corpus; 0-3 faults out of 15 kinds (missing, directory, symlink loop, torn, flipped/zeroed/stale/duplicated/misdirected sectors, swap after stat, change between two INCLUDEs, cycle created mid-build, EACCES/EIO). Each build runs in a worker whose death (stack overflow, fatal error) is attributed to the run and confirmed in a fresh process. Claimed for the fault/configuration slice of C01, not for all byte strings.",
-   note="Trusted: instrumenter (selftest), sim-disk hook, worker/driver attribution. EACCES/EIO are stubbed syscall results. Exponential macro expansion is not generated. Hang = exceeds the 120 s per-run watchdog twice (typical run: < 5 ms).",
+   note="Trusted: instrumenter (selftest), sim-disk hook, worker/driver attribution. EACCES/EIO are stubbed syscall results. Exponential macro expansion is not generated. Hang = exceeds the 20 s per-run watchdog twice (typical run: < 5 ms).",
    ref="4.1"),
  "C07": dict(
    technique="deterministic simulation with fault injection: every build on the simulated disk that ends in an error is checked against what the disk actually served (file, version, index, recomputed line/column/quote) and against the dynamic include tree reconstructed from the access log by an independent reference model (existential over file instances; unique when a fault served two versions of one path)",
